@@ -11,7 +11,7 @@ namespace LL
 theorem validChoice_cases {s : Lsm} {cd : CompactDef} (hv : validChoice s cd = true) (htop : cd.top ≠ []) :
     (cd.thisLevel = 0 ∧ cd.nextLevel = 0 ∧ cd.bot = [] ∧ 4 ≤ cd.top.length) ∨
     (cd.thisLevel = 0 ∧ cd.nextLevel ≠ 0 ∧
-      cd.top = List.range (if cd.dropPrefixes.isEmpty then l0PrefixLen (cdThisT s cd) none else (cdThisT s cd).length) ∧
+      cd.top = List.range (if cd.dropPrefixes.isEmpty then l0PickLen (cdThisT s cd) else (cdThisT s cd).length) ∧
       cd.bot = overlapIdx (cdNextT s cd) (rangeOfTables (cdTops s cd)) ∧
       ((List.range cd.nextLevel).drop 1).any (fun j => !(s.levels.getD j []).isEmpty) = false) ∨
     (cd.thisLevel ≠ 0 ∧ cd.thisLevel = cd.nextLevel ∧ ∃ i, cd.top = [i] ∧ isContiguousFrom cd.bot = true ∧
@@ -41,7 +41,7 @@ theorem validChoice_cases {s : Lsm} {cd : CompactDef} (hv : validChoice s cd = t
       simp only [h0, hn', beq_self_eq_true, Bool.and_false, Bool.false_eq_true, if_false, if_true] at hv
       unfold cdNextT cdTops cdThisT
       rw [h0]
-      generalize (if cd.dropPrefixes.isEmpty then l0PrefixLen (s.levels.getD 0 []) none
+      generalize (if cd.dropPrefixes.isEmpty then l0PickLen (s.levels.getD 0 [])
         else (s.levels.getD 0 []).length) = n at hv ⊢
       split at hv
       · simp at hv
@@ -89,105 +89,6 @@ theorem validChoice_cases {s : Lsm} {cd : CompactDef} (hv : validChoice s cd = t
         · simp at hv
       · simp at hv
 
-
-theorem kle_antisymm {a b : Bytes} (h1 : kle a b) (h2 : kle b a) : a = b := by
-  rcases kle_iff.mp h1 with h | h
-  · exact absurd h h2
-  · exact h
-
-theorem kle_total (a b : Bytes) : kle a b ∨ kle b a := by
-  rcases klt_tri a b with h | h | h
-  · exact .inl (kle_of_klt h)
-  · subst h; exact .inl (kle_refl _)
-  · exact .inr (kle_of_klt h)
-
-theorem keyRange_of_ok {t : Tbl} (h : TblOk t) :
-    ∃ a b, t.smallest = some a ∧ t.biggest = some b ∧ t.keyRange = some (a.key, b.key) ∧ kle a.key b.key := by
-  obtain ⟨a, ha⟩ := smallest_some h.1
-  obtain ⟨b, hb⟩ := biggest_some h.1
-  refine ⟨a, b, ha, hb, by unfold Tbl.keyRange; rw [ha, hb], ?_⟩
-  exact tbl_keys_ge_smallest h.2 ha b (biggest_mem hb)
-
-/-- `r` is the user-key hull of the (non-empty) tables `S` -/
-def RangeOf (S : List Tbl) (r : Option (Bytes × Bytes)) : Prop :=
-  match r with
-  | none => S = []
-  | some (lo, hi) =>
-    (∀ t ∈ S, ∀ x ∈ t.ents, kle lo x.key ∧ kle x.key hi) ∧
-    (∃ t ∈ S, ∃ x ∈ t.ents, x.key = lo) ∧ (∃ t ∈ S, ∃ x ∈ t.ents, x.key = hi)
-
-theorem rangeOf_extend {S : List Tbl} {r : Option (Bytes × Bytes)} (hr : RangeOf S r) {t : Tbl} (ht : TblOk t)
-    {a b : Ent} (ha : t.smallest = some a) (hb : t.biggest = some b) :
-    RangeOf (S ++ [t]) (rangeExtend r (a.key, b.key)) := by
-  have hin : ∀ x ∈ t.ents, kle a.key x.key ∧ kle x.key b.key :=
-    fun x hx => ⟨tbl_keys_ge_smallest ht.2 ha x hx, tbl_keys_le_biggest ht.2 hb x hx⟩
-  cases r with
-  | none =>
-    unfold RangeOf at hr; subst hr
-    simp only [rangeExtend, RangeOf, List.nil_append, List.mem_singleton, forall_eq, exists_eq_left]
-    exact ⟨hin, ⟨a, smallest_mem ha, rfl⟩, ⟨b, biggest_mem hb, rfl⟩⟩
-  | some p =>
-    obtain ⟨lo, hi⟩ := p
-    obtain ⟨h1, ⟨t1, ht1, x1, hx1, e1⟩, ⟨t2, ht2, x2, hx2, e2⟩⟩ := hr
-    simp only [rangeExtend, RangeOf]
-    refine ⟨?_, ?_, ?_⟩
-    · intro t' ht' x hx
-      have hx' : (kle lo x.key ∧ kle x.key hi) ∨ (kle a.key x.key ∧ kle x.key b.key) := by
-        rcases List.mem_append.mp ht' with h | h
-        · exact .inl (h1 t' h x hx)
-        · simp at h; subst h; exact .inr (hin x hx)
-      constructor
-      · by_cases hc : cmpBytes a.key lo = .lt
-        · simp only [hc, beq_self_eq_true, if_true]
-          rcases hx' with h | h
-          · exact kle_trans (kle_of_klt hc) h.1
-          · exact h.1
-        · have : (cmpBytes a.key lo == .lt) = false := by simp [hc]
-          simp only [this, Bool.false_eq_true, if_false]
-          rcases hx' with h | h
-          · exact h.1
-          · exact kle_trans hc h.1
-      · by_cases hc : cmpBytes b.key hi = .gt
-        · simp only [hc, beq_self_eq_true, if_true]
-          rcases hx' with h | h
-          · exact kle_trans h.2 (kle_of_klt ((cmpBytes_gt_iff _ _).mp hc))
-          · exact h.2
-        · have : (cmpBytes b.key hi == .gt) = false := by simp [hc]
-          simp only [this, Bool.false_eq_true, if_false]
-          rcases hx' with h | h
-          · exact h.2
-          · exact kle_trans h.2 (fun hlt => hc ((cmpBytes_gt_iff _ _).mpr hlt))
-    · by_cases hc : cmpBytes a.key lo = .lt
-      · simp only [hc, beq_self_eq_true, if_true]
-        exact ⟨t, by simp, a, smallest_mem ha, rfl⟩
-      · have : (cmpBytes a.key lo == .lt) = false := by simp [hc]
-        simp only [this, Bool.false_eq_true, if_false]
-        exact ⟨t1, List.mem_append_left _ ht1, x1, hx1, e1⟩
-    · by_cases hc : cmpBytes b.key hi = .gt
-      · simp only [hc, beq_self_eq_true, if_true]
-        exact ⟨t, by simp, b, biggest_mem hb, rfl⟩
-      · have : (cmpBytes b.key hi == .gt) = false := by simp [hc]
-        simp only [this, Bool.false_eq_true, if_false]
-        exact ⟨t2, List.mem_append_left _ ht2, x2, hx2, e2⟩
-
-theorem rangeOf_foldl {f : Option (Bytes × Bytes) → Tbl → Option (Bytes × Bytes)}
-    (hf : ∀ r t d, t.keyRange = some d → f r t = rangeExtend r d)
-    {S ts : List Tbl} {r : Option (Bytes × Bytes)} (hr : RangeOf S r) (hok : ∀ t ∈ ts, TblOk t) :
-    RangeOf (S ++ ts) (ts.foldl f r) := by
-  induction ts generalizing S r with
-  | nil => simpa using hr
-  | cons t ts ih =>
-    obtain ⟨a, b, ha, hb, hkr, _⟩ := keyRange_of_ok (hok t (by simp))
-    simp only [List.foldl_cons, hf r t _ hkr]
-    have := ih (rangeOf_extend hr (hok t (by simp)) ha hb) (fun t' ht' => hok t' (List.mem_cons_of_mem _ ht'))
-    simpa using this
-
-theorem rangeOfTables_spec {ts : List Tbl} (hok : ∀ t ∈ ts, TblOk t) : RangeOf ts (rangeOfTables ts) := by
-  unfold rangeOfTables
-  have h := fun f hf => @rangeOf_foldl f hf [] ts none (by simp [RangeOf]) hok
-  simp only [List.nil_append] at h
-  apply h
-  intro r t d hd; simp only [hd]
 
 theorem foldl_sel_mem {α : Type} (p : α → α → Bool) (s : α) (ss : List α) :
     ss.foldl (fun a x => if p x a then x else a) s ∈ s :: ss := by
@@ -482,7 +383,7 @@ theorem validChoice_compactOk {s : Lsm} {cd : CompactDef} (h : LsmInv s) (hv : V
     · rw [hb]; simp
   · obtain ⟨hbase, hexact⟩ := exact_case (by omega) hb
     refine ⟨hbase, .inl ⟨h0, by omega, ?_, ?_, hexact⟩⟩
-    · have hl : cd.top.length = (if cd.dropPrefixes.isEmpty then l0PrefixLen (cdThisT s cd) none
+    · have hl : cd.top.length = (if cd.dropPrefixes.isEmpty then l0PickLen (cdThisT s cd)
           else (cdThisT s cd).length) := by
         have := congrArg List.length ht
         simpa using this
@@ -785,6 +686,55 @@ theorem l0sf_compact {s s' : Lsm} {cd : CompactDef} {d n now : Nat} (h : LsmInv 
       have := (List.getElem?_eq_some_iff.mp hj).1
       omega
   · exact hunch (by have := hh.1; omega) (by have := hh.1; have := hh.2.1; omega)
+
+theorem l0PrefixLen_le (l : List Tbl) (kr : Option (Bytes × Bytes)) : l0PrefixLen l kr ≤ l.length := by
+  induction l generalizing kr with
+  | nil => simp [l0PrefixLen]
+  | cons t ts ih =>
+    unfold l0PrefixLen
+    split
+    · simp
+    · split
+      · have := ih (rangeExtend kr ‹_›); simp; omega
+      · simp
+
+/-- the repaired picker (F28) never leaves behind an L0 table whose range overlaps the tops -/
+theorem validChoice_noLeftBehind {s : Lsm} {cd : CompactDef} (hvc : validChoice s cd = true)
+    (htop : cd.top ≠ []) (h0 : cd.thisLevel = 0) (hn : cd.nextLevel ≠ 0) : cdLeftBehind s cd = false := by
+  unfold cdLeftBehind
+  simp only [h0, beq_self_eq_true, Bool.true_and]
+  have hall : ∀ (m : Nat), (cdThisT s cd).length ≤ m → cd.top = List.range m →
+      ((removeIdx (cdThisT s cd) cd.top).any fun t =>
+        match t.keyRange with
+        | some d => rangeOverlaps (rangeOfTables (cdTops s cd)) d
+        | none => false) = false := by
+    intro m hm ht
+    rw [ht, removeIdx_range, List.drop_eq_nil_of_le hm]; rfl
+  rcases validChoice_cases hvc htop with ⟨_, hn', _⟩ | ⟨_, _, ht, _, _⟩ | ⟨hne, _⟩ | ⟨hne, _⟩
+  · exact absurd hn' hn
+  · by_cases hdp : cd.dropPrefixes.isEmpty = true
+    · rw [if_pos hdp] at ht
+      unfold l0PickLen at ht
+      simp only at ht
+      split at ht
+      · exact hall _ (Nat.le_refl _) ht
+      · rename_i hany
+        have hle := l0PrefixLen_le (cdThisT s cd) none
+        have htops : cdTops s cd = (cdThisT s cd).take (l0PrefixLen (cdThisT s cd) none) := by
+          unfold cdTops; rw [ht, pickIdx_range _ _ hle]
+        rw [htops]
+        rw [ht, removeIdx_range]
+        apply List.any_eq_false.mpr
+        intro t htm
+        have := List.any_eq_false.mp (by simpa using hany) t htm
+        unfold overlapsRange at this
+        cases hk : t.keyRange with
+        | none => simp
+        | some d => rw [hk] at this; simpa using this
+    · rw [if_neg hdp] at ht
+      exact hall _ (Nat.le_refl _) ht
+  · exact absurd h0 hne
+  · exact absurd h0 hne
 
 end LL
 end Badger
